@@ -1479,6 +1479,16 @@ func runC03() {
 			}
 		}
 	}
+	// the SAME struct type once as a pointer sample (above: world Env) and afterwards as a VALUE sample: methods declared
+	// on the pointer receiver are members of the first and not of the second, whatever was compiled before
+	{
+		v0 := *uni[0]
+		wV := &c03World{name: "EnvValue", sample: v0, envT: reflect.TypeOf(v0), envs: []interface{}{v0}, twins: []interface{}{v0}}
+		for _, s := range []string{"PtrM(1)", "PtrM(I) + 1", "Add(PtrM(1), 2)", "[PtrM(2)]", "B ? PtrM(1) : 0", "Add(1, 2)", "St.Get()", "Inc(I) + I8", "P.Get() + 1"} {
+			push(item{src: s, w: wU, fam: "pointer sample, then value sample"})
+			push(item{src: s, w: wV, fam: "pointer sample, then value sample"})
+		}
+	}
 	nOrig := len(items)
 	for _, o := range originals {
 		for _, m := range c03Mutants(o.src) {
